@@ -6,6 +6,7 @@ import (
 	"context"
 	"fmt"
 	"runtime"
+	"sort"
 	"strconv"
 	"strings"
 	"time"
@@ -93,7 +94,7 @@ type chooser func(step int, labels []string) int
 
 func runSchedule(sc *Scenario, choose chooser, maxSteps int) Result {
 	e := &Env{sc: sc, pending: map[int64]string{}, subs: map[int]*subRT{}, updaters: map[int]resolve.SubscriptionUpdater{},
-		trigCtx: map[int]context.Context{}, trigSeen: map[int]bool{}, startKey: map[int]int{}}
+		trigCtx: map[int]context.Context{}, trigSeen: map[int]bool{}, startKey: map[int]int{}, decBy: map[int64]int{}}
 	e.sched = NewSched(e.namer)
 	resolve.SetVerifYield(e.sched.Yield)
 	baseline := runtime.NumGoroutine()
@@ -152,8 +153,8 @@ func runSchedule(sc *Scenario, choose chooser, maxSteps int) Result {
 			}
 		}
 		for _, a := range e.sched.Parked() {
-			if a.name == "hb" && ticks >= sc.MaxTicks {
-				continue
+			if a.name == "hb" && a.point == "c12.hb.R" && ticks >= sc.MaxTicks {
+				continue // no further heartbeat tick; a heartbeat parked inside a writer call is always releasable
 			}
 			cands = append(cands, cand{kind: 1, actor: a, label: a.name})
 		}
@@ -202,7 +203,7 @@ func runSchedule(sc *Scenario, choose chooser, maxSteps int) Result {
 			what = "(start " + name + " " + o.sexp() + ")"
 		} else {
 			acted = c.actor
-			if acted.name == "hb" {
+			if acted.name == "hb" && acted.point == "c12.hb.R" {
 				ticks++
 			}
 			what = "(go " + acted.name + ")"
@@ -294,26 +295,35 @@ func (e *Env) doOp(o Op) {
 			e.log("(adderr %d)", o.A)
 		}
 	case "unsub":
+		// "gone" = the completed channel of the subscription is known to be closed.  For an asynchronous subscriber
+		// the only witness is the return of the call that removed it (the one that reported SubscriptionCountDec(1):
+		// it won the removed CAS and ran done()); a call that found nothing to remove proves nothing.
 		rt := e.subs[o.A]
 		e.mu.Lock()
 		was := rt.added
 		e.mu.Unlock()
+		before := e.decByMe()
 		err := e.res.UnsubscribeSubscription(rt.id)
-		if err == nil && was {
+		if err == nil && was && e.decByMe()-before == 1 {
 			e.markGone(o.A)
 		}
 	case "rmclient":
+		before := e.decByMe()
+		_ = e.res.UnsubscribeClient(resolve.ConnectionID(1000 + o.A))
+		// The call removed (and completed) exactly n subscriptions of the connection.  Which ones is only known when
+		// n covers every subscription of the connection that was ever added and is not yet known to be gone (the
+		// removed ones are among these; candidates are taken AFTER the call, the operation may have waited long).
+		n := e.decByMe() - before
 		var sids []int
 		e.mu.Lock()
 		for sid, rt := range e.subs {
-			if rt.cfg.Conn == o.A && rt.added && !rt.cfg.Sync {
+			if rt.cfg.Conn == o.A && rt.added && !rt.cfg.Sync && rt.gone == 0 {
 				sids = append(sids, sid)
 			}
 		}
 		e.mu.Unlock()
-		_ = e.res.UnsubscribeClient(resolve.ConnectionID(1000 + o.A))
-		sh := e.shutdownSeen()
-		if !sh {
+		sort.Ints(sids)
+		if n > 0 && n == len(sids) {
 			for _, sid := range sids {
 				e.markGone(sid)
 			}
@@ -335,9 +345,12 @@ func (e *Env) doOp(o Op) {
 	}
 }
 
-// shutdownSeen: removeClient returns an empty result after shutdown; the harness cannot see that
-// directly, so "gone" is only claimed when the resolver context is still live.
-func (e *Env) shutdownSeen() bool { return e.rctxv.Err() != nil }
+func (e *Env) decByMe() int {
+	gid := goid()
+	e.mu.Lock()
+	defer e.mu.Unlock()
+	return e.decBy[gid]
+}
 
 func (e *Env) updater(sid int) resolve.SubscriptionUpdater {
 	e.mu.Lock()
